@@ -242,16 +242,22 @@ impl s2n_quic::provider::endpoint_limits::Limiter for RetryIf {
     }
 }
 
-fn start_server(handle: &Handle, cfg: &EndpointCfg, seed: u64, rec: Recorder, resets: bool, evil: Option<crate::evil::Evil>, tp: TpArg) -> Server {
+fn start_server(handle: &Handle, cfg: &EndpointCfg, seed: u64, rec: Recorder, resets: bool, evil: Option<crate::evil::Evil>, tp: TpArg, aes256: bool) -> Server {
     if resets {
-        start_server_with::<true>(handle, cfg, seed, rec, evil, tp)
+        start_server_with::<true>(handle, cfg, seed, rec, evil, tp, aes256)
     } else {
-        start_server_with::<false>(handle, cfg, seed, rec, evil, tp)
+        start_server_with::<false>(handle, cfg, seed, rec, evil, tp, aes256)
     }
 }
 
-fn start_server_with<const R: bool>(handle: &Handle, cfg: &EndpointCfg, seed: u64, rec: Recorder, evil: Option<crate::evil::Evil>, tp: TpArg) -> Server {
-    let tls = s2n_quic::provider::tls::default::Server::builder().with_certificate(certificates::CERT_PKCS1_PEM, certificates::KEY_PKCS1_PEM).unwrap().build().unwrap();
+fn start_server_with<const R: bool>(handle: &Handle, cfg: &EndpointCfg, seed: u64, rec: Recorder, evil: Option<crate::evil::Evil>, tp: TpArg, aes256: bool) -> Server {
+    let mut tls = s2n_quic::provider::tls::default::Server::builder().with_certificate(certificates::CERT_PKCS1_PEM, certificates::KEY_PKCS1_PEM).unwrap();
+    if aes256 {
+        // TLS 1.3 with TLS_AES_256_GCM_SHA384 as the only suite; interoperates with default_tls13 clients
+        let policy = s2n_quic::provider::tls::default::security::Policy::from_version("20250414").expect("harness: s2n-tls policy 20250414");
+        tls.config_mut().set_security_policy(&policy).expect("harness: set_security_policy");
+    }
+    let tls = tls.build().unwrap();
     let tls = crate::tptls::TpTls { endpoint: tls, rewrite: tp.0, log: tp.1 };
     let b = Server::builder()
         .with_stateless_reset_token(TokenGen::<R>(seed ^ 0x70c))
@@ -458,7 +464,7 @@ pub fn run_with(sc: &Scenario, extras: Extras) -> Outcome {
             app.borrow_mut().handles = vec![None; sc.clients.len()];
 
             // server first: its address is the first one generated
-            let mut server = start_server(&handle, &sc.server, sc.seed ^ 0x5e, Recorder { ep: 0, trace: trace.clone() }, sc.stateless_reset, sc.evil.filter(|e| !e.client).map(|e| crate::evil::Evil::new(e, 0, sc.clients[0].endpoint.clone(), trace.clone(), evil_shared.clone())), (sc.tp.clone().filter(|t| t.side == Side::Server), tp_server.clone()));
+            let mut server = start_server(&handle, &sc.server, sc.seed ^ 0x5e, Recorder { ep: 0, trace: trace.clone() }, sc.stateless_reset, sc.evil.filter(|e| !e.client).map(|e| crate::evil::Evil::new(e, 0, sc.clients[0].endpoint.clone(), trace.clone(), evil_shared.clone())), (sc.tp.clone().filter(|t| t.side == Side::Server), tp_server.clone()), sc.tls_aes256);
             let server_addr = server.local_addr().unwrap();
             net_shared.lock().unwrap().server_addr = Some(server_addr);
             addrs.lock().unwrap().0 = Some(server_addr);
